@@ -1,4 +1,4 @@
-(* Extraction of the register / skeleton / session models (C05).  ExtrOcamlBasic only. *)
+(* Extraction of the register / skeleton / session models (C05 and C10).  ExtrOcamlBasic only. *)
 From Coq Require Import Extraction ExtrOcamlBasic.
 From GrolGen Require Import Gen_Consts.
 From GrolModel Require Import Ast Modify Registers Session.
